@@ -232,39 +232,46 @@ def toMulticast (v : Nat) : Nat := if isMulticast v then v else v + SVC_MULTICAS
 /-- `self.0 & !MULTICAST_FLAG` -/
 def toAnycast (v : Nat) : Nat := if isMulticast v then v - SVC_MULTICAST_FLAG else v
 
-/-- `ServiceAddr::from_str` (with the numeric form `<SVC:0x....>` that `Display` prints) -/
-def parseSvc (s : Str) : Option Nat :=
-  let (service, suffix) :=
-    match splitOnce SVC_SUFFIX_SEP s with
-    | some p => p
-    | none => (s, SVC_SUFFIX_ANYCAST)
-  let address : Option Nat :=
-    match lookupName SVC_PARSE_NAMES service with
-    | some v => some v
-    | none =>
-      match stripPrefix SVC_PARSE_HEX_OPEN service with
+/-- `s.split_once('_').unwrap_or((s, "A"))` -/
+def splitSvcSuffix (s : Str) : Str × Str :=
+  match splitOnce SVC_SUFFIX_SEP s with
+  | some p => p
+  | none => (s, SVC_SUFFIX_ANYCAST)
+
+/-- the `match service { … }` of `ServiceAddr::from_str`: a well-known name, or the numeric form
+    `<SVC:0x....>` that `Display` prints (multicast flag not allowed inside the number) -/
+def parseSvcBase (service : Str) : Option Nat :=
+  match lookupName SVC_PARSE_NAMES service with
+  | some v => some v
+  | none =>
+    match stripPrefix SVC_PARSE_HEX_OPEN service with
+    | none => none
+    | some rest =>
+      match stripSuffix SVC_PARSE_HEX_CLOSE rest with
       | none => none
-      | some rest =>
-        match stripSuffix SVC_PARSE_HEX_CLOSE rest with
+      | some hex =>
+        match parseUInt SVC_PARSE_HEX_RADIX SVC_PARSE_HEX_BITS hex with
         | none => none
-        | some hex =>
-          match parseUInt SVC_PARSE_HEX_RADIX SVC_PARSE_HEX_BITS hex with
-          | none => none
-          | some value => if isMulticast value then none else some value
-  match address with
+        | some value => if isMulticast value then none else some value
+
+/-- `ServiceAddr::from_str` -/
+def parseSvc (s : Str) : Option Nat :=
+  match parseSvcBase (splitSvcSuffix s).1 with
   | none => none
   | some a =>
-    if suffix = SVC_SUFFIX_ANYCAST then some a
-    else if suffix = SVC_SUFFIX_MULTICAST then some (toMulticast a)
+    if (splitSvcSuffix s).2 = SVC_SUFFIX_ANYCAST then some a
+    else if (splitSvcSuffix s).2 = SVC_SUFFIX_MULTICAST then some (toMulticast a)
     else none
+
+/-- the `match self.to_anycast() { … }` of `Display for ServiceAddr` -/
+def showSvcBase (a : Nat) : Str :=
+  match lookupValue SVC_SHOW_NAMES a with
+  | some name => name
+  | none => SVC_HEX_OPEN ++ padZeros SVC_HEX_WIDTH (showNat 16 a) ++ SVC_HEX_CLOSE
 
 /-- `Display for ServiceAddr` -/
 def showSvc (v : Nat) : Str :=
-  let base :=
-    match lookupValue SVC_SHOW_NAMES (toAnycast v) with
-    | some name => name
-    | none => SVC_HEX_OPEN ++ padZeros SVC_HEX_WIDTH (showNat 16 (toAnycast v)) ++ SVC_HEX_CLOSE
-  base ++ (if isMulticast v then SVC_SUFFIX_SEP :: SVC_SUFFIX_MULTICAST else [])
+  showSvcBase (toAnycast v) ++ (if isMulticast v then SVC_SUFFIX_SEP :: SVC_SUFFIX_MULTICAST else [])
 
 /-- `ScionHostAddr`; IPv4 / IPv6 addresses as their 32 / 128-bit values -/
 inductive Host where
